@@ -396,9 +396,19 @@ def run_obligation(ob, seed=0):
                     'why': 'clause checked by the replay oracle only'}))
                 return
             if r.get('violations'):
-                ok = False
-                why = 'concrete oracle reports %r where every claim on ' \
-                    'the path was discharged' % (r['violations'],)
+                # the independent concrete oracle fails on the real code for
+                # an input of a path on which every symbolic claim was
+                # discharged: the property is violated on the real code (a
+                # violation in its own right) AND the encoding missed it
+                # (recorded, so that the gap in the model is visible)
+                lab, detail = list(r['violations'].items())[0]
+                rec['confirmed'].append(_jsonable({
+                    'label': lab, 'inputs': inputs, 'observed': detail,
+                    'real_label': lab, 'kind': 'replay-oracle',
+                    'why': 'found by the replay oracle; the symbolic model '
+                           'of this path did not show it'}))
+                rec['model_gaps'] = rec.get('model_gaps', 0) + 1
+                return
             elif r.get('obs') is not None and obs:
                 for k in obs:
                     if k in r['obs'] and not _cmp_obs(obs[k], r['obs'][k],
